@@ -59,7 +59,7 @@ def route(case):
     op = case.split(" ", 1)[0]
     if op in ("ip4", "udp4", "ip6"):
         return "dhcp"
-    if op in ("pool", "resolved"):
+    if op in ("pool", "resolved", "resolve4"):
         return "local"
     if op == "resp6":
         return "local6"
@@ -731,6 +731,77 @@ def gen_carry(rng, n):
     return cases
 
 
+def _s(x):
+    return hx(x.encode())
+
+
+V4STR = [("10.0.0.1", bytes([10, 0, 0, 1])), ("10.0.0.254", bytes([10, 0, 0, 254])), ("100.64.0.1", bytes([100, 64, 0, 1])),
+         ("192.168.1.1", bytes([192, 168, 1, 1])), ("8.8.8.8", bytes([8, 8, 8, 8])), ("255.255.255.255", b"\xff" * 4), ("0.0.0.0", bytes(4))]
+V6STR = [("2001:db8::1", bytes.fromhex("20010db8000000000000000000000001")), ("::1", bytes(15) + b"\x01"), ("::ffff:10.0.0.9", bytes(10) + b"\xff\xff" + bytes([10, 0, 0, 9]))]
+BADSTR = ["", "bogus", "10.0.0", "10.0.0.256", "1.2.3.4.5"]
+CIDRS = [("10.0.0.0/24", bytes([10, 0, 0, 0]), bytes([255, 255, 255, 0])), ("10.0.0.0/8", bytes([10, 0, 0, 0]), bytes([255, 0, 0, 0])),
+         ("100.64.0.0/10", bytes([100, 64, 0, 0]), bytes([255, 192, 0, 0])), ("192.168.1.0/30", bytes([192, 168, 1, 0]), bytes([255, 255, 255, 252])),
+         ("0.0.0.0/0", bytes(4), bytes(4)), ("10.0.0.128/25", bytes([10, 0, 0, 128]), bytes([255, 255, 255, 128])),
+         ("2001:db8::/64", bytes.fromhex("20010db8") + bytes(12), b"\xff" * 8 + bytes(8)), ("bad/24", None, None), ("", None, None),
+         ("10.0.0.0/33", None, None)]
+
+
+def gen_resolve4(rng, n):
+    """pkg/dhcp.ResolveV4 + buildResponseFromResolved: operator configuration (strings) + AAA context -> frame"""
+    def addr_tok(weird=0.15):
+        q = rng.random()
+        if q < weird:
+            s_ = rng.choice(BADSTR)
+            return _s(s_) + "/nil"
+        if q < 2 * weird:
+            s_, b = rng.choice(V6STR)
+            return _s(s_) + "/" + hx(b)
+        s_, b = rng.choice(V4STR)
+        return _s(s_) + "/" + hx(bytes(10) + b"\xff\xff" + b)
+    cases = []
+    for _ in range(n):
+        yip = rng.choice([bytes([10, 0, 0, 7]), bytes([10, 0, 0, 200]), bytes([100, 64, 3, 9]), bytes([192, 168, 1, 2]), bytes([172, 16, 0, 1]),
+                          bytes(10) + b"\xff\xff" + bytes([10, 0, 0, 7]), bytes.fromhex("20010db8") + bytes(11) + b"\x05", rb(rng, 5)])
+        cgw = "nil" if rng.random() < 0.7 else ip4tok(rng, 0.15)
+        cmask = "nil" if rng.random() < 0.75 else hx(rng.choice([bytes([255, 255, 255, 0]), b"\xff" * 4, bytes(4), b""]))
+        cd = [] if rng.random() < 0.7 else [ip4tok(rng, 0.2) for _ in range(rng.choice([1, 2]))]
+        unn = rng.choice([0, 0, 0, 1])
+        lease = rng.choice([0, 0, 60, 3600, 86400, M32 - 1])
+        pdns = [addr_tok(0.2) for _ in range(rng.choice([0, 1, 2, 3]))]
+        pools = []
+        for _ in range(rng.choice([0, 1, 1, 2, 3])):
+            cs, ci_, cm = rng.choice(CIDRS)
+            ctok = _s(cs) + "/" + ("nil" if ci_ is None else hx(ci_) + ":" + hx(cm))
+            gtok = addr_tok(0.2)
+            opts = []
+            for _ in range(rng.choice([0, 0, 1, 2])):
+                tag = rng.choice([42, 43, 60, 66, 150])
+                enc = rng.choice(["", "ascii", "hex", "hex", "base64"])
+                if enc == "hex":
+                    val, pay = rng.choice([("0a:0b:0c", bytes([10, 11, 12])), ("deadbeef", bytes.fromhex("deadbeef")), ("01 02-03", bytes([1, 2, 3])),
+                                           ("abc", None), ("zz", None), ("", b"")])
+                elif enc == "base64":
+                    val, pay = "AAAA", None
+                else:
+                    val = rng.choice(["tftp.example", "x", ""])
+                    pay = val.encode()
+                opts.append("%d,%s,%s/%s" % (tag, _s(enc), _s(val), "nil" if pay is None else hx(pay)))
+            pools += [ctok, gtok, str(len(opts))] + opts
+        npools = sum(1 for x in pools if ":" in x.split("/")[-1] or x.endswith("/nil") and False)
+        # count pools: every pool contributes exactly one cidr token first; recount from construction instead
+        cases.append(None)
+        cases[-1] = (pools, cd, pdns)
+        np_ = 0
+        i = 0
+        while i < len(pools):
+            np_ += 1
+            i += 3 + int(pools[i + 2])
+        hw = rb(rng, 6)
+        cases[-1] = " ".join(["resolve4", str(rng.randrange(M32)), "nil", hx(hw), str(rng.choice([2, 5])), hx(yip), cgw, cmask, str(len(cd))] + cd +
+                             [addr_tok(0.25), addr_tok(0.5), str(unn), str(lease), str(len(pdns))] + pdns + [str(np_)] + pools)
+    return cases
+
+
 def gen_resp6(rng, n):
     """plugins/dhcp6/local buildResponse: resolved address / prefix / DNS / raw options -> ADVERTISE / REPLY"""
     cases = []
@@ -806,6 +877,7 @@ def gen_cases(rng, tier, budget):
     cases += gen_v6(rng, 1500 * k)
     cases += gen_pipeline4(rng, 360 * k)
     cases += gen_resp6(rng, 400 * k)
+    cases += gen_resolve4(rng, 500 * k)
     return cases
 
 
